@@ -21,31 +21,57 @@ def extent : List Nat → TSPoint
 /-- The `Length` of a byte string. -/
 def lengthOf (bs : List Nat) : Length := { bytes := bs.length, extent := extent bs }
 
+/-! ## Canonical forms
+
+`pointAddSpec` / `pointSubSpec` are fixed, hand-written forms of the generated `point_add` /
+`point_sub`.  The equalities below are proved with `grind`, which case-splits on whatever `if`
+structure the regenerated definitions have, so a semantics-preserving rewrite of point.h leaves
+them (and everything proved through them) intact, while a semantic change breaks them. -/
+
+def pointAddSpec (a b : TSPoint) : TSPoint :=
+  if b.row = 0 then { row := a.row, column := a.column + b.column }
+  else { row := a.row + b.row, column := b.column }
+
+def pointSubSpec (a b : TSPoint) : TSPoint :=
+  if a.row > b.row then { row := a.row - b.row, column := a.column }
+  else { row := 0, column := a.column - b.column }
+
+theorem point_add_eq_spec (a b : TSPoint) : point_add a b = pointAddSpec a b := by
+  cases a; cases b
+  grind [point_add, point__new, pointAddSpec]
+
+theorem point_sub_eq_spec (a b : TSPoint) : point_sub a b = pointSubSpec a b := by
+  cases a; cases b
+  grind [point_sub, point__new, pointSubSpec]
+
 theorem point_add_zero (a : TSPoint) : point_add a { row := 0, column := 0 } = a := by
-  simp [point_add, point__new]
+  rw [point_add_eq_spec]; simp [pointAddSpec]
 
 theorem point_zero_add (a : TSPoint) : point_add { row := 0, column := 0 } a = a := by
-  unfold point_add point__new
-  split <;> simp_all
-  cases a; simp_all
+  rw [point_add_eq_spec]; cases a; grind [pointAddSpec]
 
 theorem point_add_assoc (a b c : TSPoint) :
     point_add (point_add a b) c = point_add a (point_add b c) := by
-  grind [point_add, point__new]
+  simp only [point_add_eq_spec]
+  cases a; cases b; cases c
+  grind [pointAddSpec]
 
 /-- Cancellation: what `length_sub`/`point_sub` rely on when a position is re-expressed relative to an
 earlier one. -/
 theorem point_sub_add_cancel (a b : TSPoint) : point_sub (point_add a b) a = b := by
+  simp only [point_add_eq_spec, point_sub_eq_spec]
   cases a; cases b
-  grind [point_sub, point_add, point__new]
+  grind [pointAddSpec, pointSubSpec]
 
 theorem point_lte_refl (a : TSPoint) : point_lte a a = true := by simp [point_lte]
 
 theorem point_lt_irrefl (a : TSPoint) : point_lt a a = false := by simp [point_lt]
 
 theorem point_lte_add (a b : TSPoint) : point_lte a (point_add a b) = true := by
-  unfold point_lte point_add point__new
-  by_cases hb : b.row > 0 <;> simp [hb] <;> omega
+  rw [point_add_eq_spec]
+  cases a; cases b
+  simp only [point_lte, pointAddSpec]
+  split <;> simp <;> omega
 
 theorem length_add_assoc (a b c : Length) :
     length_add (length_add a b) c = length_add a (length_add b c) := by
@@ -63,15 +89,18 @@ theorem length_sub_add_cancel (a b : Length) : length_sub (length_add a b) a = b
 /-- The text model is a monoid homomorphism into the generated point arithmetic:
 extent (x ++ y) = point_add (extent x) (extent y). -/
 theorem extent_append (x y : List Nat) : extent (x ++ y) = point_add (extent x) (extent y) := by
+  simp only [point_add_eq_spec]
   induction x with
-  | nil => simp [extent, point_zero_add]
+  | nil =>
+    simp only [List.nil_append, extent]
+    generalize extent y = p
+    cases p; grind [pointAddSpec]
   | cons b bs ih =>
     simp only [List.cons_append, extent, ih]
-    unfold point_add point__new
-    by_cases hb : b = 10 <;> by_cases hy : (extent y).row > 0 <;> simp [hb, hy]
-    · omega
-    · by_cases h0 : (extent bs).row = 0 <;> simp [h0] <;> omega
-    · by_cases h0 : (extent bs).row = 0 <;> simp [h0] <;> omega
+    generalize extent y = p
+    generalize extent bs = q
+    cases p; cases q
+    grind [pointAddSpec]
 
 theorem lengthOf_append (x y : List Nat) : lengthOf (x ++ y) = length_add (lengthOf x) (lengthOf y) := by
   simp [lengthOf, length_add, extent_append]
